@@ -181,7 +181,17 @@ static bool judged(const XSock *x) { return !x->ignore_delivery && !x->dying; }
 
 static void note_terminal(XSock *x, const char *call, int e) {
     if (is_refusal(e)) return;
-    if (x->term_errno == 0 && !x->saw_eof) { x->term_errno = e; return; }
+    if (x->term_errno == 0 && !x->saw_eof) {
+        x->term_errno = e;
+        // nothing was injected and the other end is alive, has seen no failure itself and is not closing: the connection broke by itself.
+        // After a refused send this is C03's "the connection remains fully usable"; otherwise accepted data can no longer be delivered (C04).
+        XSock *p = x->peer;
+        if (XO.judge_unprovoked && judged(x) && !x->is_server && !x->closing && p && judged(p) && !p->closed && !p->closing && !p->terminal() && !p->saw_epipe)
+            G->violation(x->refused_sends ? "C03.connection_broken_after_refusal" : "C04.unprovoked_failure",
+                         "%s: %s failed with %s although no fault was injected and the peer (%s) is alive, not closing and has seen no failure; %llu earlier xcm_send call(s) on this socket had been refused with EAGAIN",
+                         x->label.c_str(), call, strerror(e), p->label.c_str(), (unsigned long long)x->refused_sends);
+        return;
+    }
     // C06: on the TCP-based transports every later send/receive/finish reports the same errno
     if (x->is_tcp_based && x->term_errno != 0 && e != x->term_errno && judged(x))
         G->violation("C06.sticky_errno", "%s: %s reported %s after the connection had failed with %s", x->label.c_str(), call, strerror(e), strerror(x->term_errno));
@@ -189,8 +199,11 @@ static void note_terminal(XSock *x, const char *call, int e) {
 
 int x_send(XSock *x, const void *buf, size_t len) {
     int rc, e;
+    // lengths beyond 1 MiB are probes of the library's size check (up to SIZE_MAX): the harness's own bookkeeping never reads more
+    // than the 1 MiB that really stands behind such a pointer
+    const size_t blen = std::min<size_t>(len, 1u << 20);
     x->send_inflight = true;
-    x->inflight.assign((const char *)buf, len);
+    x->inflight.assign((const char *)buf, blen);
     x->inflight_taken = 0;
     if (x->bytestream && !x->ghost.empty()) {
         // part of this very data already reached the peer during an earlier, refused offer (known btls defect)
@@ -200,10 +213,16 @@ int x_send(XSock *x, const void *buf, size_t len) {
     int64_t before[8];
     bool have_before = XO.check_refusal && judged(x) && x_read_counters(x, before);
     {
+        // the library sees an exact-size heap copy that is released as soon as the call returns: a read past the offered length
+        // or a pointer kept beyond the call (e.g. by a TLS write retried later) is a sanitizer report, and every retry of the
+        // same bytes comes from a different address, as the API allows. (Sizes beyond 1 MiB are probes of the size check only.)
         ApiScope a("xcm_send", x, x->nonblocking);
+        uint8_t *copy = (buf && len > 0 && len <= (1u << 20)) ? new uint8_t[len] : nullptr;
+        if (copy) memcpy(copy, buf, len);
         errno = 0;
-        rc = xcm_send(x->s, buf, len);
+        rc = xcm_send(x->s, copy ? copy : buf, len);
         e = errno;
+        delete[] copy;
     }
     x->send_inflight = false;
     if (have_before && rc < 0 && is_refusal(e)) {
@@ -233,7 +252,7 @@ int x_send(XSock *x, const void *buf, size_t len) {
             if (taken > n && judged(x) && x->ghost.size() <= n)
                 G->violation("C02.refused_bytes_delivered", "%s: xcm_send accepted %zu of %zu offered bytes but the peer received %zu bytes of that offer", x->label.c_str(), n, len, taken);
             size_t skip = taken;
-            if (n > skip) x->out_stream.append((const char *)buf + skip, n - skip);
+            if (n > skip && n <= blen) x->out_stream.append((const char *)buf + skip, n - skip);
             x->ghost.clear();
             x->refused_offer.clear();
             x->refusals_in_row = 0;
@@ -241,7 +260,7 @@ int x_send(XSock *x, const void *buf, size_t len) {
             x->led_from_app_bytes += n;
         } else {
             if (rc != 0) G->violation("C01.send_rc", "%s: messaging xcm_send returned %d", x->label.c_str(), rc);
-            if (!taken) x->out_fifo.emplace_back((const char *)buf, len);   // else: already received by the peer while the call was returning
+            if (!taken) x->out_fifo.emplace_back((const char *)buf, blen);   // else: already received by the peer while the call was returning
             x->sent_lens.push_back(len);
             x->sent_ok++;
             x->led_from_app_msgs++;
@@ -257,14 +276,15 @@ int x_send(XSock *x, const void *buf, size_t len) {
         if (x->bytestream && !is_refusal(e) && len > taken && x->failed_offer.empty() && !x->conn_failed_send) {
             // the connection failed during the call: bytes the lower layer had already taken may still arrive
             // (the receiver then holds a prefix of what was offered - there is no "next call" to be misled)
-            x->failed_offer.assign((const char *)buf + taken, len - taken);
+            x->failed_offer.assign((const char *)buf + taken, blen - std::min(taken, blen));
         }
         if (x->bytestream && e == EAGAIN) {
             x->refusals_in_row++;
-            x->refused_offer.assign((const char *)buf, len);
-            x->ghost.assign((const char *)buf, std::min(taken, len));
+            x->refused_offer.assign((const char *)buf, blen);
+            x->ghost.assign((const char *)buf, std::min(taken, blen));
         }
         if (!is_refusal(e)) x->conn_failed_send = true;
+        if (e == EAGAIN) x->refused_sends++;
         x->last_send_errno = e;
         if (x->saw_eof && e != EPIPE && !is_refusal(e) && judged(x))
             G->violation("C06.send_after_close", "%s: xcm_send after the close was seen failed with %s, not EPIPE", x->label.c_str(), strerror(e));
@@ -433,6 +453,7 @@ int x_fd(XSock *x) {
 int x_close(XSock *x) {
     if (!x || x->closed || !x->s) return 0;
     int rc;
+    x->closing = true;
     x->closed_after_flush = !x->is_server && !x->terminal() && !x->saw_epipe && (!x->nonblocking || x->finish_ok_since_send || x->sent_ok + x->stream_sent == 0);
     if (XO.check_counters && !x->is_server && judged(x)) x->final_valid = x_read_counters(x, x->final_cnt);
     {
